@@ -262,6 +262,13 @@ def run_visit(prog):
                 for arm in m[2]:
                     if H.pat_is_wild(arm[0]):
                         problems.append("wildcard arm in a match on %s" % short_path(m[5]))
+        # a loop over children must not be left early: `return` / `break` inside a loop skips the remaining children
+        for lp in H.nodes(h["body"], "loop"):
+            for x in H.walk(lp[2] if len(lp) > 2 else lp):
+                if H.tag(x) == "closure":
+                    continue
+                if H.tag(x) == "ret":
+                    problems.append("`return` inside a loop over children skips the remaining ones")
         key = "%s:covers" % short_path(path)
         if problems:
             obs.append(bad(RULE, key, site(f), "; ".join(sorted(set(problems))) + ": an import in that position would be invisible to jrsonnet-deps"))
